@@ -336,6 +336,30 @@ def _run(ctx, rng, case, tag, dataflow):
     # a second, independent point (layout errors can cancel at one point)
     x2 = x * np.exp(0.05 * rng.normal(size=len(x)))
     check_value(ctx, case, x2, tag)
+    # the caller goes on using the population model object: a second
+    # likelihood for fewer individuals is built from it, and a fixed value
+    # is changed - the first likelihood keeps scoring what it was built for
+    if len(case.lls) > 1 and not case.posterior:
+        try:
+            k = len(case.lls) - 1
+            kw = {}
+            if case.h.n_cov:
+                kw['covariates'] = case.cov[:k]
+            chi.HierarchicalLogLikelihood(case.lls[:k], case.pm, **kw)
+            if isinstance(case.pm, chi.ReducedPopulationModel) and \
+                    case.pm.n_fixed_parameters() > 0:
+                nm = [n for n, f in zip(case.top_names_full, case.free_top)
+                      if not f][0]
+                case.pm.fix_parameters({nm: 0.123})
+            ctx.count('sibling_likelihoods_built')
+        except Exception as e:      # noqa
+            ctx.violation_exc('constructible_model_is_usable', e,
+                              {'case': case.describe(),
+                               'call': 'sibling likelihood'},
+                              case.features())
+            return
+        if check_value(ctx, case, x, tag + '_after_sibling') is None:
+            return
     # one work vector, updated in place between evaluations (finite
     # differences, line searches, samplers that reuse a proposal buffer):
     # every evaluation is scored at the values the vector holds then
